@@ -138,7 +138,13 @@ class CallsMixin:
         return K.vbool(False)
 
     def b_str(self, args, kwargs, node):
+        if isinstance(args[0], PyObj):
+            return K.vstr(self.p.fresh('str!pyobj', z3.StringSort()))
         return K.vstr(self.to_str(args[0]))
+
+    def b__(self, args, kwargs, node):
+        """gettext marker: identity on the message."""
+        return args[0]
 
     b_to_str = b_str
 
@@ -237,6 +243,12 @@ class CallsMixin:
         if not z3.is_string_value(name):
             raise Unsupported('getattr with symbolic name')
         attr = name.as_string()
+        if isinstance(args[0], PyObj) and args[0].tag == 'exc':
+            if attr in args[0].fields:
+                return args[0].fields[attr]
+            if len(args) == 3:
+                return args[2]
+            raise PyRaise('AttributeError', None, 'exception has no attribute %s (line %s)' % (attr, node.lineno))
         if len(args) == 3:
             base = args[0]
             k = base.kind.inner if isinstance(base.kind, K.Opt) else base.kind
@@ -629,7 +641,7 @@ class CallsMixin:
         return ref
 
     def new_exception(self, name, args, kwargs, node):
-        return PyObj('exc', kind=name, args=args, fields={})
+        return PyObj('exc', kind=name, args=args, fields=dict(kwargs))
 
     # ----------------------------------------------------------- contracts
     def bind_args(self, c, args, kwargs, node):
@@ -696,12 +708,7 @@ class CallsMixin:
             for ek in c.may_raise:
                 b = self.p.fresh('raises!%s!%s' % (c.short, ek), z3.BoolSort())
                 if self.branch(b):
-                    self.havoc_modifies(c, sub)
-                    sub.run_ghost(c.effects_exc)
-                    sub.exc = PyRaise(ek)
-                    for e in c.ensures_exc:
-                        self.p.assume(sub.truth(sub.eval_text(e)))
-                    raise PyRaise(ek, None, origin='%s at line %s' % (c.name, getattr(node, 'lineno', '?')))
+                    self.raise_from_contract(c, sub, ek, node)
         for ek, cond in c.raises.items():
             if self.spec:
                 break
@@ -711,12 +718,7 @@ class CallsMixin:
                 sub.spec = True
                 b = sub.truth(sub.eval_text(cond))
             if self.branch(b):
-                self.havoc_modifies(c, sub)
-                sub.run_ghost(c.effects_exc)
-                sub.exc = PyRaise(ek)
-                for e in c.ensures_exc:
-                    self.p.assume(sub.truth(sub.eval_text(e)))
-                raise PyRaise(ek, None, origin='%s at line %s' % (c.name, getattr(node, 'lineno', '?')))
+                self.raise_from_contract(c, sub, ek, node)
         self.havoc_modifies(c, sub)
         if not c.pure:
             self.advance_alloc()
@@ -764,6 +766,40 @@ class CallsMixin:
             body = z3.Implies(z3.And(*pre) if pre else z3.BoolVal(True), z3.And(*post))
             self.p.assume(z3.ForAll(bvars, body) if bvars else body)
         return res
+
+    def raise_from_contract(self, c, sub, ek, node):
+        self.havoc_modifies(c, sub)
+        if not c.pure:
+            self.advance_alloc()
+        sub.run_ghost(c.effects_exc)
+        e = PyRaise(ek, None, origin='%s at line %s' % (c.name, getattr(node, 'lineno', '?')))
+        e.obj = PyObj('exc', kind=ek, args=[], fields={
+            f: self.p.fresh_value(k, 'excf!' + f) for f, k in getattr(c, 'exc_fields', {}).items()})
+        sub.exc = e
+        sub.spec = True
+        for t in c.ensures_exc:
+            self.p.assume(sub.truth(sub.eval_text(t)))
+        raise e
+
+    def b_exc_attr(self, args, kwargs, node):
+        name = simp(args[0].t).as_string()
+        if self.exc is None:
+            raise Unsupported('exc_attr outside an exceptional postcondition')
+        obj = getattr(self.exc, 'obj', None)
+        if obj is None or name not in obj.fields:
+            kind = args[1].kind if len(args) > 1 else K.Atom('Missing')
+            if obj is None:
+                self.exc.obj = obj = PyObj('exc', kind=self.exc.kind, args=[], fields={})
+            obj.fields[name] = self.p.fresh_value(kind, 'excattr!missing!' + name)
+            obj.fields.setdefault('$missing', set()).add(name) if False else None
+            self.p.missing_exc_attrs = getattr(self.p, 'missing_exc_attrs', set()) | {name}
+        return obj.fields[name]
+
+    def b_has_exc_attr(self, args, kwargs, node):
+        name = simp(args[0].t).as_string()
+        obj = getattr(self.exc, 'obj', None) if self.exc is not None else None
+        return K.vbool(obj is not None and name in obj.fields and
+                       name not in getattr(self.p, 'missing_exc_attrs', set()))
 
     def assume_valid_new(self, v):
         """Result of a call: references may have been allocated by the callee."""
